@@ -1,6 +1,4 @@
 """C18 — package members are private unless capitalised."""
-import re
-
 from .common import Check, iter_joined
 
 COARSE = {"NFSYM": "NF", "NFPKG": "NF", "NFHASH": "NF", "NOTPKG": "NOTREC"}
@@ -14,117 +12,6 @@ def coarse(obs):
 def split_input(inp):
     enc, _, src = inp.partition(" ## ")
     return enc, src
-
-
-def hash_holds_package_deeper(enc, world_enc, k):
-    """Narrow classifier of finding hash-pkg-dotpaths1: the k-th op walks a path that reaches a package
-    stored in a hash which is itself stored in a hash reached by the same hash walk (two or more
-    hash hops, then a package, then at least one more part)."""
-    toks = enc.split()
-    # ops start after "O n"
-    i = toks.index("O") + 2
-    ops = []
-    while i < len(toks):
-        kind = toks[i]
-        if kind == "g" or kind == "s":
-            n = int(toks[i + 2]); path = toks[i + 3:i + 3 + n]; i = i + 3 + n + (1 if kind == "s" else 0)
-        elif kind == "c":
-            n = int(toks[i + 1]); path = toks[i + 2:i + 2 + n]; na = int(toks[i + 2 + n]); i = i + 3 + n + na
-        else:
-            return False
-        ops.append(path)
-    if k >= len(ops):
-        return False
-    path = ops[k]
-    # resolve the path against the world declaration: count consecutive hash hops before a package hop
-    decl = parse_world(world_enc)
-    if decl is None:
-        return False
-    cur = ("G", decl)   # global scope
-    hdepth = 0
-    for idx, part in enumerate(path):
-        kind, body = cur
-        nxt = None
-        if kind in ("G", "P", "H"):
-            for name, d in body:
-                if name == part:
-                    nxt = d
-        if nxt is None:
-            return False
-        nxt = deref(nxt, decl)
-        if nxt is None:
-            return False
-        if kind == "H" and nxt[0] == "P":
-            if hdepth >= 2 and idx < len(path) - 1:
-                return True
-            hdepth = 0
-        elif kind == "H" and nxt[0] == "H":
-            pass
-        if nxt[0] == "H":
-            hdepth += 1
-        else:
-            hdepth = 0
-        cur = nxt
-    return False
-
-
-def deref(d, glob):
-    seen = 0
-    while d is not None and d[0] == "R" and seen < 10:
-        seen += 1
-        path = d[1]
-        cur = ("G", glob)
-        for part in path:
-            nxt = None
-            if cur[0] in ("G", "P", "H"):
-                for name, dd in cur[1]:
-                    if name == part:
-                        nxt = dd
-            if nxt is None:
-                return None
-            cur = nxt
-        d = cur
-    return d
-
-
-def parse_world(enc):
-    """Declaration tree of a world line (D key U.. W..): list of (name, decl); decl = (kind, payload)."""
-    toks = enc.split()
-    try:
-        pos = [toks.index("W") + 1]
-    except ValueError:
-        return None
-
-    def nxt():
-        t = toks[pos[0]]; pos[0] += 1; return t
-
-    def names():
-        n = int(nxt()); return [nxt() for _ in range(n)]
-
-    def decl():
-        k = nxt()
-        if k == "I":
-            nxt(); return ("I", None)
-        if k == "F":
-            names(); b = nxt()
-            if b in ("G", "S"):
-                nxt()
-            else:
-                names()
-            return ("F", None)
-        if k == "H":
-            n = int(nxt()); return ("H", [(nxt(), decl()) for _ in range(n)])
-        if k == "P":
-            nxt(); n = int(nxt()); return ("P", [(nxt(), decl()) for _ in range(n)])
-        if k == "R":
-            return ("R", names())
-        raise ValueError(k)
-
-    try:
-        n = int(nxt())
-        return [(nxt(), decl()) for _ in range(n)]
-    except (ValueError, IndexError):
-        return None
 
 
 def main(argv):
@@ -165,20 +52,16 @@ def main(argv):
                     io, so = coarse(impl).split("|"), spec.split("|")
                     k = next((i for i in range(min(len(io), len(so))) if io[i] != so[i]), 0)
                     prop_fail.append({"source": full_src, "implementation": impl, "specification": spec, "model": model,
-                                      "first_differing_op": k, "_enc": enc, "_wenc": wenc})
+                                      "first_differing_op": k})
                 elif impl != model:
                     corr_fail.append({"source": full_src, "implementation": impl, "model": model, "specification": spec})
             c.coverage["compared"] = n
             c.coverage["traces_validated_against_impl"] = n
-    # property failures: shortest source first; known finding matched by a narrow classifier
+    # property failures: shortest source first (no known finding is registered for C18)
     prop_fail.sort(key=lambda f: len(f["source"]))
     reported = 0
     unknown = 0
     for f in prop_fail:
-        enc, wenc = f.pop("_enc"), f.pop("_wenc")
-        if hash_holds_package_deeper(enc, wenc, f["first_differing_op"]) and \
-                c.known_finding("hash-pkg-dotpaths1", f["source"][-120:]):
-            continue
         unknown += 1
         if reported < 5:
             reported += 1
